@@ -178,6 +178,11 @@ class C13(Prop):
         allkeys = [k for v in owned.values() for k in v]
         steps = []
         down = {}
+        bystander = rng.random() < 0.1
+        if bystander:
+            # another HashClient object in the same process, over the same servers, with the same settings: what
+            # it learns about failures is its own business
+            w["bystanders"] = [{"stack": "hash", "servers": list(servers), "client_kwargs": dict(ck)}]
 
         def op(target=None):
             r = rng.random()
@@ -238,6 +243,12 @@ class C13(Prop):
                     kind = rng.choice(DOWN_KINDS)
                     down[i] = kind
                     steps.append({"t": "node", "id": i, "health": kind})
+                    if bystander and rng.random() < 0.7:
+                        for _b in range(rng.randint(1, ra + 2)):
+                            steps.append({"t": "call", "by": 0, "m": "get", "a": [E(rng.choice(owned[names[i]]))],
+                                          "k": {}, "tag": "bystander"})
+                            if rng.random() < 0.5:
+                                steps.append({"t": "advance", "dt": q(rt + 8 * TICK)})
         # healing suffix
         heal = len(steps)
         for i in range(nn):
@@ -270,26 +281,32 @@ class C13(Prop):
         names = [refhash.node_name(s) for s in servers]
         nid_name = {n["id"]: names[i] for i, n in enumerate(wspec["nodes"])}
         name_nid = {v: k for k, v in nid_name.items()}
-        calls = {c.id: c for c in res.calls}
+        # calls made through a bystander client (another HashClient object of the same process) are not the
+        # history under judgement: only what they leak into the client under test would be
+        by_cids = {c.id for c in res.calls if c.step >= 0 and scn["steps"][c.step].get("by") is not None}
+        rcalls = [c for c in res.calls if c.id not in by_cids]
+        calls = {c.id: c for c in rcalls}
         MemcacheError = engine.pymemcache.exceptions.MemcacheError
 
         # ---- escape set
-        for rec in res.calls:
+        for rec in rcalls:
             if rec.step < 0 or rec.outcome != "raise":
                 continue
             e = rec.exc
             if ign:
                 out.append(viol("exception-escaped-despite-ignore_exc", rec, disc=type(e).__name__,
-                                exc=type(e).__name__, msg=str(e)[:80]))
+                                exc=type(e).__name__, msg=engine._exc_text(e)[:80]))
             elif not ((isinstance(e, OSError) and engine._is_sim_exc(e)) or isinstance(e, MemcacheError)):
                 out.append(viol("internal-error-escaped", rec, disc=type(e).__name__, exc=type(e).__name__,
-                                msg=str(e)[:80]))
+                                msg=engine._exc_text(e)[:80]))
 
         # ---- ordered atoms: failed contacts, successful contacts, commands
         atoms = []
         seen_fail = set()       # one contact = one socket
         failed_in_call = set()
         for seq, nid, kind, cid, sid, now in w.health_log:
+            if cid in by_cids:
+                continue
             failed_in_call.add((cid, sid))
             if nid is None or sid in seen_fail:
                 continue
@@ -297,20 +314,22 @@ class C13(Prop):
             atoms.append((seq, 0, "fail", nid, cid, kind, now))
         seen_ok = set()
         for seq, nid, cid, sid, now in w.ok_log:
+            if cid in by_cids:
+                continue
             # a send that succeeded in a call in which the same socket then failed is part of that failed contact;
             # earlier successful calls on a (pooled, long-lived) socket that fails later are real successes
             if (cid, sid) in seen_ok or (cid, sid) in failed_in_call:
                 continue
             seen_ok.add((cid, sid))
             atoms.append((seq, 1, "ok", nid, cid, None, now))
-        for rec in res.calls:
+        for rec in rcalls:
             for c in rec.commands:
                 if c[2] is not None:
                     atoms.append((c[4], 2, "cmd", c[0], rec.id, c[2], rec.t0))
         # call-start markers (state as of the start of each call); calls are sequential, so ordering by
         # (call id, seq) is the global order
         atoms = [(a[4], a[0], a[1]) + a[2:] for a in atoms]
-        for rec in res.calls:
+        for rec in rcalls:
             if rec.step >= 0:
                 atoms.append((rec.id, -1, -1, "start", None, rec.id, None, rec.t0))
         atoms.sort(key=lambda a: (a[0], a[1], a[2]))
@@ -337,7 +356,7 @@ class C13(Prop):
         contact_times = {nid: [] for nid in nid_name}   # (time, call id) of contacts while the node is down
         final = scn["final"]
         wk_rk = {}
-        for rec in res.calls:
+        for rec in rcalls:
             if rec.step < 0:
                 continue
             args, kwargs = res.extra["args"][rec.step]
